@@ -570,6 +570,23 @@ func (ex *Exec) navLoad(v Value, path []PathElem) Value {
 		if n == 0 {
 			panic(unsupported("symbolic index into empty array"))
 		}
+		if mp, ok := ex.st.ModProvOf(pe.Index); ok && mp.M == uint64(n) {
+			// index = (base + off) mod n: select by the canonical residue of
+			// base, so that equal relative accesses give equal terms whatever
+			// the constant offset is
+			xm := ex.st.URem(mp.Base, ex.st.BV(mp.M, 64))
+			jof := func(d int) int { return int((uint64(d) + mp.Off) % mp.M) }
+			res := ex.specialize(ex.st.Eq(xm, ex.st.BV(uint64(n-1), 64)), ex.navLoad(arr.Elems[jof(n-1)], rest))
+			for d := n - 2; d >= 0; d-- {
+				e := ex.navLoad(arr.Elems[jof(d)], rest)
+				m, ok := ex.mergeVal(ex.st.Eq(xm, ex.st.BV(uint64(d), 64)), e, res)
+				if !ok {
+					panic(unsupported("symbolic index over unmergeable elements: " + valString(e) + " / " + valString(res)))
+				}
+				res = m
+			}
+			return res
+		}
 		// the index is in range (bounds obligation recorded at IndexAddr), so
 		// the last element is read under the knowledge index == n-1
 		res := ex.specialize(ex.st.Eq(pe.Index, ex.st.BV(uint64(n-1), 64)), ex.navLoad(arr.Elems[n-1], rest))
@@ -643,9 +660,20 @@ func (ex *Exec) navStore(v Value, path []PathElem, val Value) Value {
 		ne[idx] = ex.navStore(arr.Elems[idx], path[1:], val)
 		return &ArrayV{ne}
 	}
+	var xm *smt.Term
+	var mp smt.ModProv
+	if p, ok := ex.st.ModProvOf(pe.Index); ok && p.M == uint64(len(ne)) {
+		mp = p
+		xm = ex.st.URem(mp.Base, ex.st.BV(mp.M, 64))
+	}
 	for k := range ne {
 		upd := ex.navStore(arr.Elems[k], path[1:], val)
-		m, ok := ex.mergeVal(ex.st.Eq(pe.Index, ex.st.BV(uint64(k), 64)), upd, arr.Elems[k])
+		cond := ex.st.Eq(pe.Index, ex.st.BV(uint64(k), 64))
+		if xm != nil {
+			d := (uint64(k) + mp.M - mp.Off) % mp.M
+			cond = ex.st.Eq(xm, ex.st.BV(d, 64))
+		}
+		m, ok := ex.mergeVal(cond, upd, arr.Elems[k])
 		if !ok {
 			panic(unsupported("symbolic store over unmergeable elements"))
 		}
